@@ -393,6 +393,8 @@ class FrontEnd:
                 row["value"] = self.value_digest(self._prop(a, "value"))
             attrs.append(row)
         d["attributes"] = attrs
+        d["field_rows"] = [r for r in attrs if r["kind"] != "Constant"]
+        d["constant_rows"] = [r for r in attrs if r["kind"] == "Constant"]
         d["fields"] = [self._prop(a, "name") for a in self._prop(t, "fields")]
         d["constants"] = [self._prop(a, "name") for a in self._prop(t, "constants")]
         try:
